@@ -362,6 +362,28 @@ fn far_cases(ctx: &Ctx) {
                         json!({"source": src, "form": form.name, "flag": flag, "d": d, "fits": fits, "expect_code": "", "observed": out.brief()}),
                     );
                 }
+                // (a2) the same target written as a difference with pc on the right: the instruction stands at 1, so
+                // `t + 2 - pc` is 1 + t, the address `pc + t` names
+                if let Some(x) = t.checked_add(2) {
+                    let target2 = format!("{} - {}", x, ["pc", "PC", "Pc"][(d.unsigned_abs() % 3) as usize]);
+                    let line2 = if form.ops.len() == 2 { format!("\t{} {}, {}", form.mn, flag, target2) } else { format!("\t{} {}", form.mn, target2) };
+                    let src2 = format!("; C03 far case\n\tnop\n{}\n", line2);
+                    let out2 = fw::build_str(&src2);
+                    ctx.eval(1);
+                    let bad2 = match (&out, &out2) {
+                        (_, Outcome::Panic(_)) => true,
+                        (Outcome::Ok(a), Outcome::Ok(b)) => a.code != b.code,
+                        (Outcome::Ok(_), Outcome::Err(_)) | (Outcome::Err(_), Outcome::Ok(_)) => true,
+                        _ => false,
+                    };
+                    if bad2 && !bad {
+                        ctx.violation(
+                            format!("rel/{}/{}/far/difference-with-pc", form.name, if fits { "in-range-wrong" } else { "out-of-range-accepted" }),
+                            format!("{} to `{}` (the same address as `{}`, displacement {}): {:?}", form.mn, target2, target, d, out2.brief()),
+                            json!({"source": src2, "form": form.name, "flag": flag, "d": d, "fits": fits, "expect_code": out.brief()["ok"]["code"].as_str().unwrap_or(""), "observed": out2.brief()}),
+                        );
+                    }
+                }
                 // (b) a label that far away (forward only, within the default flash), placed with .org
                 if *d > 0 && *d < 4_000_000 && !fits && (*flag == 0) {
                     let at = 5u32;
